@@ -144,8 +144,17 @@ def check_truncate(prog, rep):
             ok = False
             if init and sl and isinstance(sl[0].targets[0].slice, ast.Slice):
                 s = sl[0].targets[0].slice
+                # named intermediate bounds (`first_bad = -chi_min + 1`) are expanded
+                env = {}
+                for b in blk:
+                    if isinstance(b, ast.Assign) and isinstance(b.targets[0], ast.Name) and \
+                            b.targets[0].id not in (fresh, var):
+                        try:
+                            env[b.targets[0].id] = eval_poly(b.value, dict(env))
+                        except NotPoly:
+                            pass
                 try:
-                    lo = eval_poly(s.lower, {}) if s.lower is not None else None
+                    lo = eval_poly(s.lower, env) if s.lower is not None else None
                 except NotPoly:
                     lo = None
                 val = unparse(sl[0].value)
@@ -770,14 +779,25 @@ OPTION_DEFAULT_OK = {
 }
 
 
+def _get_key_default(c):
+    """(key, default expression) of a `X.get(key, default, ..)` call of a Config: positional or by
+    the keywords `key` / `default` of Config.get"""
+    key = c.args[0] if c.args else kwarg(c, 'key')
+    dflt = c.args[1] if len(c.args) > 1 else kwarg(c, 'default')
+    if isinstance(key, ast.Constant) and isinstance(key.value, str):
+        return key.value, dflt
+    return None, None
+
+
 def _truncate_defaults(prog):
     f = prog.module('tenpy/linalg/truncation.py').func('truncate')
     out = {}
     for c in ast.walk(f):
         if isinstance(c, ast.Call) and isinstance(c.func, ast.Attribute) and c.func.attr == 'get' \
-                and unparse(c.func.value) == 'options' and len(c.args) >= 2 and isinstance(
-                    c.args[0], ast.Constant) and isinstance(c.args[0].value, str):
-            out[c.args[0].value] = unparse(c.args[1])
+                and unparse(c.func.value) == 'options':
+            key, dflt = _get_key_default(c)
+            if key is not None and dflt is not None:
+                out[key] = unparse(dflt)
     if len(out) < 5:
         raise AnalysisError('truncate(): fewer than 5 `options.get(key, default)` reads found')
     return out
@@ -825,17 +845,17 @@ def check_option_defaults(prog, rep):
                     continue
                 for c in ast.walk(st):
                     if isinstance(c, ast.Call) and isinstance(c.func, ast.Attribute) and \
-                            c.func.attr == 'get' and len(c.args) >= 2 and isinstance(
-                                c.args[0], ast.Constant) and c.args[0].value in defaults and \
+                            c.func.attr == 'get' and _get_key_default(c)[0] in defaults and \
+                            _get_key_default(c)[1] is not None and \
                             'trunc_par' in unparse(c.func.value):
                         sites.append((st, c))
             if not sites:
                 continue
             cfg = None
             for st, c in sites:
-                key = c.args[0].value
+                key, dexpr = _get_key_default(c)
                 recv = unparse(c.func.value)
-                d = unparse(c.args[1])
+                d = unparse(dexpr)
                 n += 1
                 if d == defaults[key]:
                     rep.instance('OPTION-default-first', {'function': q, 'module': m.relpath,
